@@ -907,7 +907,8 @@ struct DCase {
 	src: Src,
 	ms: MapSpec,
 	/// 0: linked when built; 1: fixed at first, linked (instant tween) before callback `link_at`; 2: reader created before its source;
-	/// 3: like 1 but with a linear tween of 1.5 full chunks (the parameter is judged once that tween has ended)
+	/// 3: like 1 but with a linear tween of 1.5 full chunks (the parameter is judged once that tween has ended);
+	/// 4: like 3 but the tween outlasts the run and S is dropped while it is running (the parameter holds from then on)
 	link: u8,
 	/// callback before which the late link is made (link == 1)
 	link_at: usize,
@@ -937,6 +938,7 @@ impl DCase {
 				0 => "linked when built".to_string(),
 				1 => format!("fixed at first, set to the link with a zero-length tween before callback {}", self.link_at),
 				3 => format!("fixed at first, set to the link with a linear tween of 1.5 full chunks before callback {} (judged after that tween)", self.link_at),
+				4 => format!("fixed at first, set to the link with a linear tween of 12 full chunks before callback {} (S is dropped while that tween runs: the parameter holds the value it had)", self.link_at),
 				_ => "B created BEFORE S, B.set_offset(link) before callback 0".to_string(),
 			},
 			schedule(self.ibs),
@@ -979,13 +981,13 @@ fn fam_d(tier: Tier, tk: usize, ibs: usize, ctx: &mut Ctx) {
 	let mut ord = 0;
 	for src in sources() {
 		for ms in maps() {
-			for link in 0..4u8 {
-				if (link == 2 && tk != 5) || (link == 0 && tk == 2) || (link == 3 && (tk == 4 || tk == 7)) {
+			for link in 0..5u8 {
+				if (link == 2 && tk != 5) || (link == 0 && tk == 2) || ((link == 3 || link == 4) && (tk == 4 || tk == 7)) {
 					continue;
 				}
 				let xs: Vec<Option<usize>> = tier.pick(vec![None, Some(2)], vec![None, Some(1), Some(2), Some(4)]);
-				let ss: Vec<Option<usize>> = tier.pick(vec![None, Some(5)], vec![None, Some(3), Some(5)]);
-				let las: Vec<usize> = if link == 1 || link == 3 { tier.pick(vec![1], vec![1, 3]) } else { vec![0] };
+				let ss: Vec<Option<usize>> = if link == 4 { vec![Some(3), Some(5)] } else { tier.pick(vec![None, Some(5)], vec![None, Some(3), Some(5)]) };
+				let las: Vec<usize> = if link == 4 { vec![1] } else if link == 1 || link == 3 { tier.pick(vec![1], vec![1, 3]) } else { vec![0] };
 				for &drop_s in &ss {
 					for &link_at in &las {
 						// the run without the drop of X comes first: "after dropping an older modulator" is only
@@ -1111,12 +1113,14 @@ fn chain(c: &DCase, base: &[f32], ctx: &mut Ctx) -> bool {
 			ids.push(b.id());
 		}
 	}
-	let blend_dur = if c.link == 3 { dur(1.5 * t_chunk).as_secs_f64() } else { 0.0 };
+	let blend_dur = if c.link == 3 { dur(1.5 * t_chunk).as_secs_f64() } else if c.link == 4 { dur(12.0 * t_chunk).as_secs_f64() } else { 0.0 };
+	// observed parameter value (gain for the volumes) at the end of the previous chunk, while a tweened link is on its way
+	let mut hold_ref: Option<f64> = None;
 	let mut blend_time = 0.0f64;
 	let ltween = tween(blend_dur, Easing::Linear);
 	let link_at = match c.link {
 		0 => usize::MAX, // linked from the beginning by the builder
-		1 | 3 => c.link_at,
+		1 | 3 | 4 => c.link_at,
 		_ => 0,
 	};
 	let mut p_prev: Option<f64> = if late { Some(init) } else { None }; // expected parameter value of the previous chunk
@@ -1210,7 +1214,7 @@ fn chain(c: &DCase, base: &[f32], ctx: &mut Ctx) -> bool {
 			}
 			// -- the linked parameter
 			// a tweened link is on its way: the parameter is a blend, which the property does not constrain
-			let blending = linked && c.link == 3 && {
+			let blending = linked && (c.link == 3 || c.link == 4) && {
 				blend_time += dtc;
 				blend_time < blend_dur
 			};
@@ -1243,6 +1247,34 @@ fn chain(c: &DCase, base: &[f32], ctx: &mut Ctx) -> bool {
 			};
 			if let Some(o) = obs {
 				observed.push(quant(o));
+			}
+			if blending {
+				// "holds its last value once the modulator is removed" also while a tween towards the link is on its way
+				let p_obs: Option<f64> = match (tk, obs) {
+					(0..=3, Some(o)) if base[gl].abs() > 1e-3 => Some(o / base[gl] as f64),
+					(5 | 8, Some(o)) => Some(o),
+					(6, Some(o)) => Some(o - 0.25),
+					_ => None,
+				};
+				if let (false, Some(h), Some(po), false) = (s_alive, hold_ref, p_obs, failed) {
+					let mut bad = (po - h).abs() > 2e-5 * (1.0 + h.abs());
+					let mut at = last;
+					if !bad && tk <= 3 {
+						// and frame by frame inside the chunk
+						if let Some(i) = (a..last).find(|&i| base[frame0 + i].abs() > 1e-3 && (buf[2 * i] as f64 / base[frame0 + i] as f64 - h).abs() > 2e-5 * (1.0 + h.abs())) {
+							bad = true;
+							at = i;
+						}
+					}
+					if bad {
+						failed = true;
+						ctx.fail(
+							format!("link: parameter does not hold its last value after the modulator is removed :: target={}, removed during a tween towards the link", TK_NAMES[tk]),
+							format!("callback {} chunk #{} frame {}: observed parameter {} ({}), at the end of the previous chunk {} :: {}", j, chunk_no, at, po, if tk <= 3 { "gain" } else { "value" }, h, c.text()),
+						);
+					}
+				}
+				hold_ref = p_obs.or(hold_ref);
 			}
 			if let (Some(p), false) = (p_exp, failed) {
 				let want = to_obs(p, b_phase, clock_pos);
